@@ -19,7 +19,11 @@ Record snap := {
 }.
 (* [o_seen = false]: the state right after this event could not be observed (the event happened
    inside another call, see the driver's close-during-enrol class); its snapshot is ignored *)
-Record ostep := { o_ev : event; o_ret : Z; o_panic : bool; o_seen : bool; o_snap : snap }.
+(* [o_pending]: disconnect notifications that had been started but had not yet returned when the
+   call of this step returned.  The registry runs its notifier inside the critical section of
+   Disconnected, so the notification of a transition is complete before any later registry call
+   returns: always 0 in the model. *)
+Record ostep := { o_ev : event; o_ret : Z; o_panic : bool; o_seen : bool; o_pending : Z; o_snap : snap }.
 Record case := { id : N; c_np : N; c_nc : N; c_na : N; c_ns : N; c_evs : list ostep }.
 
 Fixpoint zlist_eqb (a b : list Z) : bool :=
@@ -85,7 +89,7 @@ Fixpoint agree (np na ns : N) (r : reg) (l : list ostep) : bool :=
   | [] => true
   | o :: rest =>
       let r' := step r (o_ev o) in
-      (o_ret o =? ret_of r (o_ev o)) &&
+      (o_ret o =? ret_of r (o_ev o)) && (o_pending o =? 0) &&
       Bool.eqb (o_panic o) (negb (panicked r) && panicked r') &&
       (negb (o_seen o) || snap_eqb (o_snap o) (snap_of np na ns r')) &&
       agree np na ns (if o_panic o then
@@ -202,6 +206,10 @@ Fixpoint check_from (np nc na ns : N) (hist : list event) (tracked_in : list (si
           | _ => tracked_in
           end in
         let here :=
+          (* notifications are delivered in the order of the registry transitions: none may still
+             be in flight when a later registry call (an enrolment, which the inbound path follows
+             with Connected) has returned *)
+          first_some (guard (o_pending o =? 0) "notifications") (
           if negb (o_seen o) then guard (negb (o_panic o)) "panic" else
           if blind then
             (* the previous state was not observed: only the clauses that need no predecessor *)
@@ -236,7 +244,7 @@ Fixpoint check_from (np nc na ns : N) (hist : list event) (tracked_in : list (si
                            if (cell (sn_sw prev) s =? 0) && negb (reg_in prev p)
                            then guard (cell (sn_sw sn) s =? 4) "handler-unregistered" else None
                        | _ => None end)
-                      (guard (check_ctx ns hist' sn) "ctx-not-cancelled"))))))) in
+                      (guard (check_ctx ns hist' sn) "ctx-not-cancelled")))))))) in
         first_some here (if o_seen o then check_from np nc na ns hist' tracked_in' false sn rest
                          else check_from np nc na ns hist' tracked_in' true prev rest)
   end.
